@@ -275,6 +275,10 @@ def take_calls():
     """resolver invocations logged since the last call, as the driver prints them"""
     calls = ['call=%d|%s|%s|%s' % c for c in K.CALLS]
     del K.CALLS[:]
+    if K.INITS:
+        # the storage ran a class's constructor while resolving (it must only use klass.__new__)
+        calls.append('+init-ran')
+        del K.INITS[:]
     return calls
 
 
@@ -290,6 +294,7 @@ def clear_resolution_caches():
     CR._unresolvable.clear()
     CR._class_cache.clear()
     del K.CALLS[:]
+    del K.INITS[:]
 
 
 # ------------------------------------------------------------------ storages
@@ -430,6 +435,7 @@ class StorageRunner:
                 t = int(tk[1])
                 cid, args, tree = parse_rec(tk[4])
                 del K.CALLS[:]
+                del K.INITS[:]
                 try:
                     st.store(p64(int(tk[2])), p64(int(tk[3])), make_pickle(cid, args, tree), '', self.txn(t))
                     calls = take_calls()
@@ -487,6 +493,7 @@ class StorageRunner:
                 from ZODB.utils import load_current
                 txn = TransactionMetaData()
                 del K.CALLS[:]
+                del K.INITS[:]
                 st.tpc_begin(txn, p64(int(tk[1])))
                 try:
                     for u in ([tk[4]] if o == 'undo' else tk[3:] if o == 'undomulti' else [tk[3]]):
@@ -586,6 +593,7 @@ class Recorder:
         def store(oid, serial, data, version, txn):
             t = rec.tnum(txn)
             del K.CALLS[:]
+            del K.INITS[:]
             try:
                 real(oid, serial, data, version, txn)
             except BaseException as e:  # noqa: B902
